@@ -67,6 +67,31 @@ def gen_range(rng: random.Random, entry_dates, era=None) -> dict:
     return {"start": a, "stop": b}
 
 
+def date_form(d: str):
+    """The same day in another of the forms a parameter accepts: the ISO text, an Instant,
+    a datetime.date, the ISO week date, a day Period, and - for a first of January / of a
+    month - the year as int or text, the month as text."""
+    import datetime
+    import zlib
+
+    k = zlib.crc32(d.encode()) % 8
+    day = datetime.date.fromisoformat(d)
+    if k == 1:
+        return periods.instant(d)
+    if k == 2:
+        return day
+    if k == 3 and 1000 <= day.year <= 9000:
+        y, w, wd = day.isocalendar()
+        return f"{y:04d}-W{w:02d}-{wd}" if 1000 <= y else d
+    if k == 4:
+        return periods.period(d)
+    if k == 5 and d.endswith("-01-01"):
+        return int(d[:4]) if zlib.crc32(d.encode()) % 16 < 8 else d[:4]
+    if k == 6 and d.endswith("-01"):
+        return d[:7]
+    return d
+
+
 def range_bounds(rg: dict):
     if "period" in rg:
         return PW.period_bounds(rg["period"])
@@ -186,7 +211,7 @@ def c06_check_all(res, step, root, tree, models, leaves, dates, what):
             return
         for d in dates:
             res.count("clause:C06.value")
-            got = param(d)
+            got = param(date_form(d))
             if got != m.at(d):
                 res.violate("C06.value", step, path=list(path), date=d, expected=m.at(d), got=got, after=what)
                 return
@@ -804,8 +829,15 @@ def run_c07(scn) -> Result:
                 # expected, element by element, from scalar reads of the tree itself
                 try:
                     if vkind == "date":
+                        # the dates may come in another unit than days (seconds as pandas gives
+                        # them, months, years): a coarser key denotes the first day of its unit
+                        import zlib
+
+                        unit = ("D", "D", "D", "s", "M", "Y", "ns", "W")[zlib.crc32(repr(do).encode()) % 8]
+                        key = numpy.array(keys, dtype="datetime64[D]").astype(f"datetime64[{unit}]")
+                        keys = [str(k) for k in key.astype("datetime64[D]")]
+                        res.count(f"probe:date_vector_unit_{unit}")
                         want = [PW.read_direct(gnode, (asof_child(gnode, k),), date) for k in keys]
-                        key = numpy.array(keys, dtype="datetime64[D]")
                     elif vkind == "nested":
                         want = [PW.read_direct(gnode, (k, "x"), date) for k in keys]
                         key = numpy.array(keys)
